@@ -516,7 +516,7 @@ int disasm_dspic(
           snprintf(instruction, length, "%s %s, #%d, %c", table_dspic[n].name, temp, lit, accum[a]);
           return 4;
         case OP_WS_PLUS_WB:
-          get_wd(temp, sizeof(temp), opcode & 0xf, (opcode >> 4) & 0x7, (opcode >> 11) & 0xf);
+          get_wd(temp, sizeof(temp), opcode & 0xf, (opcode >> 4) & 0x7, (opcode >> 15) & 0xf);
           snprintf(instruction, length, "%s %s", table_dspic[n].name, temp);
           return 4;
         case OP_WS_WB:
